@@ -29,6 +29,12 @@ class MixState(object):
     self.starts = {}           # event id -> start sample
     self.nevents = 0
 
+  def key(self):
+    """ Canonical form: two alternatives with the same key are the same. """
+    return (self.n, self.keep, self.ended, self.T,
+            tuple((T, eid) for T, eid, _ in self.pending),
+            tuple((eid, idx) for eid, _, idx in self.playing))
+
   def clone(self):
     st = MixState(self.keep, self.zero)
     st.n, st.T, st.ended, st.nevents = self.n, self.T, self.ended, \
